@@ -336,7 +336,7 @@ theorem gHashFinish_spec (h : Heap) (H tag : Slice) (aLen pLen : Nat)
         = be64 (8 * aLen) ++ be64 (8 * pLen) := by
       have hl1 := GCM.be64_length (8 * aLen)
       have hl2 := GCM.be64_length (8 * pLen)
-      simp [splice, hl1, hl2, List.take_append, List.drop_append]
+      simp [splice, hl1, hl2, List.drop_append]
     rw [hsp]
   rw [hp2, Outcome.bind_ok]
   have hx2 : (be64 (8 * aLen) ++ be64 (8 * pLen)).length = 16 := by
